@@ -71,6 +71,22 @@ CHECKS = {
          "Exploration: each id (or a[name]) on an element with visible text must yield exactly one marker; in table-free documents and raw mode the number of token characters before the marker equals the index of the element's first visible character; removing ids never changes the string output. Regression inputs run first. One genuine defect (marker of a table/row with an empty first cell) is a known finding.",
          "Positions are judged outside side-by-side tables only.",
          "DESIGN.md §3 C14"),
+ "C17": ("runtime monitor: totality of add_css/add_agent_css on hostile strings (fuel + watchdog), inertness of document CSS, metamorphic equality of syntactic variants of one sheet AST",
+         "Exploration: (a) random UTF-8, CSS token soup and damaged valid sheets must be accepted or rejected with CssParseError, never panic/hang; (b) CSS embedded in a document (style element or attribute) that declares no display/content/white-space never changes whether or which text is rendered; (c) a valid sheet and a variant differing only in whitespace, comments, case of property names/hex digits, final semicolon dropped or doubled, interleaved unknown properties, unknown at-rules and unparsable rule sets give identical rich tagged lines.",
+         "Selector names in (c) are lower-case; (b) skips strings that cannot be embedded.",
+         "DESIGN.md §3 C17"),
+ "C18": ("metamorphic runtime monitor: rendering with hiding CSS vs rendering the AST with the reference-computed hidden subtrees deleted",
+         "Exploration: the hidden set comes from the harness's reference selector matcher + cascade on the oracle DOM (class/id/element/compound/descendant/child selectors in user sheets, style elements, inline display:none and the zero-height/hidden-overflow idiom, competing display declarations); the rendering with CSS must equal the rendering of the document with those subtrees deleted at DOM level, for plain strings (footnotes on) and rich tagged lines incl. FragmentStart; with use_doc_css off document styles must be inert.",
+         "Selectors never target html/body; colour annotations are ignored in the rich comparison.",
+         "DESIGN.md §3 C18"),
+ "C19": ("reference-model monitor: exhaustive pairs / sampled triples of competing colour declarations + random sheets vs a reference cascade",
+         "Exploration with an exhaustive small scope: every ordered pair (thorough: a large sample of ordered triples) of colour declarations over origin x importance x specificity class x source order on one element, plus random sheets in all origins with inline styles over nested documents; the Colour/BgColour annotations of every element's own token must equal the reference cascade's winners along its ancestor chain.",
+         "Selector matching is C20's subject; one sheet per origin.",
+         "DESIGN.md §3 C19"),
+ "C20": ("reference-model monitor: reference selector matcher on the oracle DOM vs colour annotations per element-owned token; exhaustive :nth-child(an+b)",
+         "Exploration with an exhaustive small scope: all :nth-child(an+b) for a,b in -5..=5 in several textual forms on sibling lists of 0..8 elements, plus random selectors up to 4 compound steps (element/class/id/universal/compound, descendant and child combinators with arbitrary whitespace, selector lists, mixed-case names) on documents in which every element owns a token; the number of Colour annotations on each token must equal the number of matching ancestors-or-self.",
+         "Tables are kept out (row groups are not render nodes); the reference matcher works on the generator's selector AST.",
+         "DESIGN.md §3 C20"),
 }
 
 def main():
